@@ -7,7 +7,7 @@ from ..model import (walk, dotted, call_name, kwarg, unparse, short, UNKNOWN,
 from ..cfg import cfg_of
 from ..flow import guards, must_pass, Exploration, loop_slice
 from .. import idioms as I
-from .c14 import Interp, UNK, _key_of, resolve_aliases
+from .c14 import Interp, UNK, _key_of, resolve_aliases, truth
 
 WD   = ('raptor/worker_default.py', 'DefaultWorker')
 WK   = ('raptor/worker.py', 'Worker')
@@ -393,14 +393,29 @@ def r20_3(prog, rep, rid='R20.3'):
     gdp = cfg_of(disp)
     sdp = I.stmt_node_map(gdp)
     dputs = [sdp[id(c)].id for f, c in producers if f is disp]
-    alive = [n for n in gdp.nodes if n.kind == 'test' and
-             isinstance(n.ast, ast.Call) and
-             isinstance(n.ast.func, ast.Attribute) and
-             n.ast.func.attr == 'is_alive']
+    ddefs = _single_defs(disp)
+
+    def alive_label(e, lab='T', depth=0):
+        """label of the out-edge of test e on which the process is still
+        alive: `p.is_alive()`, a once-assigned local holding that call's
+        result, or the negation of either"""
+        if isinstance(e, ast.UnaryOp) and isinstance(e.op, ast.Not):
+            return alive_label(e.operand, 'F' if lab == 'T' else 'T', depth)
+        if isinstance(e, ast.Name) and e.id in ddefs and depth < 3:
+            return alive_label(ddefs[e.id], lab, depth + 1)
+        if isinstance(e, ast.Call) and isinstance(e.func, ast.Attribute) \
+                and e.func.attr == 'is_alive' and not e.args:
+            return lab
+        return None
+
+    alive = [(n, alive_label(n.ast)) for n in gdp.nodes if n.kind == 'test'
+             and n.ast is not None and alive_label(n.ast)]
     if len(alive) != 1:
         raise AnalysisError('UNRECOGNISED-IDIOM %s: no single is_alive() '
                             'test' % disp.where)
-    tdst = [e.dst for e in gdp.succ[alive[0].id] if e.label == 'T']
+    tdst = [e.dst for e in gdp.succ[alive[0][0].id]
+            if e.label == alive[0][1]]
+    alive = [alive[0][0]]
     ends = [gdp.exit.id, gdp.raise_.id]
     ok = bool(dputs) and all(
         not (set(ends) & gdp.reachable(t, skip_nodes=set(dputs),
@@ -744,7 +759,7 @@ def r20_5(prog, rep, rid='R20.5'):
                 if call_name(c) in ROUTES and c.args:
                     calls.append((call_name(c), ip.ev(fn, c.args[0], env), c))
 
-        ip = Interp(prog, M, observe=observe)
+        ip = _interp(prog, M, observe)
         task = {'uid': 'task.0000', 'description': {'mode': mode}}
         exits = ip.run(f, {param: [task]})
         rep.stat('interp_states', ip.states)
@@ -1350,6 +1365,566 @@ def r20_6(prog, rep, rid='R20.6'):
 
 
 # ------------------------------------------------------------------------------
+# R20.7  routing table over the finite domain of request modes
+#
+# The route of a request is a function of its mode alone: TASK_EXECUTABLE goes
+# to the agent's executor path, every mode the workers have a dispatcher for
+# goes to the workers.  A routing test may read other attributes of the
+# description, but then the table must still be exact for every description
+# `TaskDescription._verify` admits for that mode.  Decided by three-valued
+# evaluation: the description handed to the value interpreter carries the
+# mode, a set value for every attribute _verify requires for the mode, no
+# value for the ones it forbids and UNKNOWN for every other attribute of the
+# schema; a test that reads an unknown attribute forks.  Only a concrete
+# admissible description on which *every* path misroutes is reported.
+#
+TD = ('task_description.py', 'TaskDescription')
+ROUTES = {'self._submit_executable_tasks': 'the agent executor path',
+          'self._submit_raptor_tasks': 'the workers'}
+R_EXE, R_WRK = 'self._submit_executable_tasks', 'self._submit_raptor_tasks'
+SET = 'x'                      # some set (truthy) attribute value
+TUID = 'task.0000'
+
+
+def _schema_keys(prog):
+    """{attribute name of a task description: some set (truthy) value of its
+    schema type}"""
+    C = prog.cls(*TD)
+    e = C.consts.get('_schema')
+    if not isinstance(e, ast.Dict):
+        raise AnalysisError('UNRECOGNISED-IDIOM %s: _schema is not a dict '
+                            'display' % C.where)
+    out = {}
+    for k, v in zip(e.keys, e.values):
+        kk = prog.fold(C.module, k) if k is not None else UNK
+        if not isinstance(kk, str):
+            continue
+        t = v.id if isinstance(v, ast.Name) else None
+        out[kk] = {'int': 2, 'float': 2.0, 'bool': True}.get(t, SET)
+        if isinstance(v, ast.List):
+            out[kk] = [SET]
+        elif isinstance(v, ast.Dict):
+            out[kk] = {SET: SET}
+    if 'mode' not in out or len(out) < 10:
+        raise AnalysisError('UNRECOGNISED-IDIOM %s: the keys of _schema do '
+                            'not fold' % C.where)
+    return out
+
+
+class _DInterp(Interp):
+    """value interpreter that also reads a description held as a dict through
+    attribute access (`td.mode`, TypedDict style) and evaluates
+    str.startswith / endswith on known strings"""
+
+    schema = ()
+
+    def ev(self, f, e, env):
+        if isinstance(e, ast.Attribute) and e.attr in self.schema:
+            k = _key_of(e)
+            if k is None or (k not in env and k not in self.inputs):
+                base = self.ev(f, e.value, env)
+                if isinstance(base, dict) and 'mode' in base:
+                    return base.get(e.attr)
+        return Interp.ev(self, f, e, env)
+
+    def _call(self, f, c, env):
+        fn = c.func
+        if isinstance(fn, ast.Attribute) and fn.attr in ('startswith',
+                                                         'endswith') \
+                and len(c.args) == 1 and not c.keywords:
+            base = self.ev(f, fn.value, env)
+            arg = self.ev(f, c.args[0], env)
+            if isinstance(base, str) and (isinstance(arg, str) or (
+                    isinstance(arg, tuple) and
+                    all(isinstance(x, str) for x in arg))):
+                return getattr(base, fn.attr)(arg)
+            return UNK
+        return Interp._call(self, f, c, env)
+
+
+def _interp(prog, cls, observe, schema=None):
+    if schema is None:
+        try:
+            schema = _schema_keys(prog)
+        except AnalysisError:
+            schema = ()
+    ip = _DInterp(prog, cls, observe=observe)
+    ip.schema = set(schema)
+    return ip
+
+
+def _worker_modes(prog):
+    """{mode value: dispatcher text} registered by Worker.__init__"""
+    init = prog.method(WK[0], WK[1], '__init__')
+    out = {}
+    for c in calls_in(init.node):
+        if call_name(c) == 'self.register_mode' and len(c.args) >= 1:
+            v = prog.fold(init.module, c.args[0], init.cls)
+            if not isinstance(v, str):
+                raise AnalysisError('UNRECOGNISED-IDIOM %s: mode registered '
+                                    'by %s does not fold' % (init.where,
+                                                             short(c, 50)))
+            out[v] = unparse(c.args[1]) if len(c.args) > 1 else '?'
+    if len(out) < 2:
+        raise AnalysisError('UNRECOGNISED-IDIOM %s: the table of modes the '
+                            'workers dispatch (self.register_mode calls) is '
+                            'not found' % init.where)
+    return out
+
+
+def _named_keys(prog, f, cls, schema, skip=(), depth=2, _seen=None):
+    """schema attributes that f (or a resolved callee which is not a route)
+    can name: string constants, folded constant names, attribute names"""
+    _seen = _seen if _seen is not None else set()
+    if id(f.node) in _seen:
+        return set()
+    _seen.add(id(f.node))
+    sk = set(schema)
+    out = set()
+    for n in walk(f.node):
+        if isinstance(n, ast.Constant) and isinstance(n.value, str):
+            if n.value in sk:
+                out.add(n.value)
+        elif isinstance(n, ast.Attribute):
+            if n.attr in sk:
+                out.add(n.attr)
+            v = prog.fold(f.module, n, f.cls)
+            if isinstance(v, str) and v in sk:
+                out.add(v)
+        elif isinstance(n, ast.Name) and isinstance(n.ctx, ast.Load):
+            v = prog.fold(f.module, n, f.cls)
+            if isinstance(v, str) and v in sk:
+                out.add(v)
+    if depth > 0:
+        for c in calls_in(f.node):
+            if call_name(c) in skip:
+                continue
+            try:
+                g = prog.resolve_call(f, c, cls)
+            except Exception:                               # noqa
+                g = None
+            if g is not None and g.node is not f.node:
+                out |= _named_keys(prog, g, cls, schema, skip, depth - 1,
+                                   _seen)
+    return out
+
+
+_DEFS = {}
+
+
+def _single_defs(f):
+    """{local name: value expr} of the names f assigns exactly once"""
+    if id(f.node) not in _DEFS:
+        stores, defs = {}, {}
+        for n in walk(f.node):
+            if isinstance(n, ast.Name) and isinstance(n.ctx, ast.Store):
+                stores[n.id] = stores.get(n.id, 0) + 1
+        for s in walk(f.node):
+            if isinstance(s, ast.Assign) and len(s.targets) == 1 and \
+                    isinstance(s.targets[0], ast.Name) and \
+                    stores.get(s.targets[0].id) == 1:
+                defs[s.targets[0].id] = s.value
+        _DEFS.clear()                   # one function at a time is enough
+        _DEFS[id(f.node)] = (f.node, defs)
+    return _DEFS[id(f.node)][1]
+
+
+class _Tri:
+    """three-valued reading of the tests of a method of the description over
+    (mode = m, {attribute: set / unset})"""
+
+    def __init__(self, prog, f, mode, track, schema):
+        self.prog, self.f, self.mode = prog, f, mode
+        self.track, self.schema = set(track), set(schema)
+        self.defs = _single_defs(f)
+        self.me = f.params[0] if f.params else 'self'
+
+    def res(self, e, depth=0):
+        while isinstance(e, ast.Name) and e.id in self.defs and depth < 4:
+            e = self.defs[e.id]
+            depth += 1
+        return e
+
+    def attr(self, e):
+        """(attribute, default expr or None) read by e from the description"""
+        e = self.res(e)
+        if isinstance(e, ast.Call) and isinstance(e.func, ast.Attribute) and \
+                e.func.attr == 'get' and 1 <= len(e.args) <= 2 and \
+                not e.keywords and self._is_me(e.func.value):
+            k = self.prog.fold(self.f.module, e.args[0], self.f.cls)
+            if isinstance(k, str):
+                return k, (e.args[1] if len(e.args) == 2 else None)
+        if isinstance(e, ast.Subscript) and self._is_me(e.value):
+            k = self.prog.fold(self.f.module, e.slice, self.f.cls)
+            if isinstance(k, str):
+                return k, None
+        if isinstance(e, ast.Attribute) and self._is_me(e.value) and \
+                e.attr in self.schema:
+            return e.attr, None
+        return None, None
+
+    def _is_me(self, e):
+        e = self.res(e)
+        return isinstance(e, ast.Name) and e.id == self.me
+
+    def value(self, e):
+        """concrete value of e or UNK"""
+        e = self.res(e)
+        k, _ = self.attr(e)
+        if k == 'mode':
+            return self.mode
+        if k is not None:
+            return UNK
+        if isinstance(e, (ast.List, ast.Tuple, ast.Set)):
+            vals = [self.value(x) for x in e.elts]
+            return UNK if any(v is UNK for v in vals) else vals
+        return self.prog.fold(self.f.module, e, self.f.cls)
+
+    def truth(self, e, st):
+        """True / False / None"""
+        e = self.res(e)
+        k, dflt = self.attr(e)
+        if k == 'mode':
+            return True
+        if k is not None:
+            t = dict(st).get(k)
+            if t is False and dflt is not None:
+                return self.truth(dflt, st)
+            return t
+        if isinstance(e, ast.Constant):
+            return bool(e.value)
+        if isinstance(e, ast.UnaryOp) and isinstance(e.op, ast.Not):
+            t = self.truth(e.operand, st)
+            return None if t is None else not t
+        if isinstance(e, ast.BoolOp):
+            ts = [self.truth(x, st) for x in e.values]
+            if isinstance(e.op, ast.And):
+                return False if False in ts else (None if None in ts
+                                                  else True)
+            return True if True in ts else (None if None in ts else False)
+        if isinstance(e, ast.Compare) and len(e.ops) == 1:
+            l, r = self.value(e.left), self.value(e.comparators[0])
+            if l is UNK or r is UNK:
+                return None
+            c = Interp._cmp(e.ops[0], l, r)
+            return None if c is UNK else bool(c)
+        if isinstance(e, ast.Call) and isinstance(e.func, ast.Name) and \
+                e.func.id == 'bool' and len(e.args) == 1 and not e.keywords:
+            return self.truth(e.args[0], st)
+        v = self.prog.fold(self.f.module, e, self.f.cls)
+        if v is UNK:
+            return None
+        try:
+            return bool(v)
+        except Exception:                                   # noqa
+            return None
+
+    def assume(self, e, want, st):
+        """st refined by `bool(e) is want`; None if that cannot be"""
+        e = self.res(e)
+        t = self.truth(e, st)
+        if t is not None:
+            return st if t == want else None
+        if isinstance(e, ast.UnaryOp) and isinstance(e.op, ast.Not):
+            return self.assume(e.operand, not want, st)
+        if isinstance(e, ast.Call) and isinstance(e.func, ast.Name) and \
+                e.func.id == 'bool' and len(e.args) == 1 and not e.keywords:
+            return self.assume(e.args[0], want, st)
+        if isinstance(e, ast.BoolOp):
+            conj = isinstance(e.op, ast.And)
+            if want == conj:
+                # all operands are `want`
+                for x in e.values:
+                    st = self.assume(x, want, st)
+                    if st is None:
+                        return None
+                return st
+            open_ = [x for x in e.values if self.truth(x, st) is None]
+            if len(open_) == 1:
+                return self.assume(open_[0], want, st)
+            return st
+        k, dflt = self.attr(e)
+        if k is not None and k != 'mode' and k in self.track and \
+                dflt is None:
+            return frozenset(set(st) | {(k, want)})
+        return st
+
+    def store(self, target, value, st):
+        """st after `target = value`"""
+        k = None
+        if isinstance(target, ast.Subscript) and self._is_me(target.value):
+            k = self.prog.fold(self.f.module, target.slice, self.f.cls)
+        elif isinstance(target, ast.Attribute) and self._is_me(target.value):
+            k = target.attr
+        if not isinstance(k, str) or k not in self.schema:
+            return st
+        if k == 'mode':
+            raise AnalysisError('UNRECOGNISED-IDIOM %s: the mode of a '
+                                'description that has one (%r) is reassigned'
+                                % (self.f.where, self.mode))
+        if k not in self.track:
+            return st
+        st = frozenset(x for x in st if x[0] != k)
+        t = None if value is None else self.truth(value, st)
+        return st if t is None else frozenset(set(st) | {(k, t)})
+
+
+def _verify_facts(prog, mode, track, schema):
+    """(required, forbidden): attributes among `track` that are set / unset
+    in every description of this mode which TaskDescription._verify lets
+    pass"""
+    f = prog.method(TD[0], TD[1], '_verify')
+    g = cfg_of(f)
+    tri = _Tri(prog, f, mode, track, schema)
+
+    def transfer(node, edge, st):
+        if edge.label == 'exc':
+            return st
+        a = node.ast
+        if node.kind == 'test' and edge.label in ('T', 'F'):
+            return tri.assume(a, edge.label == 'T', st)
+        if node.kind == 'stmt' and a is not None:
+            if isinstance(a, ast.Assign):
+                for t in a.targets:
+                    st = tri.store(t, a.value, st)
+            elif isinstance(a, (ast.AugAssign, ast.AnnAssign)):
+                st = tri.store(a.target, None, st)
+            elif isinstance(a, ast.Delete):
+                for t in a.targets:
+                    st = tri.store(t, ast.Constant(value=None), st)
+        return st
+
+    ex = Exploration(g, g.entry.id, frozenset(), transfer)
+    finals = [dict(t.state) for t in ex.terminals if t.node == g.exit.id]
+    if not finals:
+        raise AnalysisError('UNRECOGNISED-IDIOM %s: no path accepts a '
+                            'description of mode %r' % (f.where, mode))
+    req = {k for k in track if all(d.get(k) is True for d in finals)}
+    forb = {k for k in track if all(d.get(k) is False for d in finals)}
+    return req, forb, ex.states
+
+
+def _route_of(prog, f, cls, param, descr, want, schema=None):
+    """('ok' | 'wrong' | 'mixed' | 'unknown', text): where _submit_tasks hands
+    one request with this description, over all paths of the interpreter"""
+    calls = []
+
+    def observe(fn, node, env):
+        if fn is not f or node.kind != 'stmt' or node.ast is None:
+            return
+        for c in calls_in(node.ast):
+            if call_name(c) in ROUTES and c.args:
+                calls.append((call_name(c), ip.ev(fn, c.args[0], env)))
+
+    ip = _interp(prog, cls, observe, schema)
+    ip.run(f, {param: [{'uid': TUID, 'description': descr}]})
+    per = {}
+    for name, v in calls:
+        if not isinstance(v, list) or any(
+                not isinstance(x, dict) or x.get('uid') is UNK for x in v):
+            return 'unknown', 'the list handed to %s cannot be evaluated' \
+                % name[5:], ip.states
+        per.setdefault(name, []).append(
+            any(x.get('uid') == TUID for x in v))
+    if not per:
+        return 'unknown', 'no submit call is reached', ip.states
+    right = per.get(want, [])
+    wrong = {n: bs for n, bs in per.items() if n != want}
+    if right and all(right) and not any(any(bs) for bs in wrong.values()):
+        return 'ok', ROUTES[want], ip.states
+    always_wrong = sorted(ROUTES[n] for n, bs in wrong.items()
+                          if bs and all(bs))
+    if always_wrong:
+        return 'wrong', ' and '.join(
+            always_wrong + ([ROUTES[want]] if right and all(right) else [])),\
+            ip.states
+    if not any(right) and not any(any(bs) for bs in wrong.values()):
+        # in no list at all: a dropped request is R20.5's finding; here it
+        # may as well be an append the interpreter could not follow
+        return 'unknown', 'the request is seen in neither list', ip.states
+    return 'mixed', 'either route', ip.states
+
+
+
+def _seen_of(prog, f, cls, param, descr, schema=None):
+    """('ok' | 'wrong' | 'mixed' | 'unknown', text): is one request with this
+    description marked raptor_seen when Master._request_cb submits it"""
+    res = []
+
+    def observe(fn, node, env):
+        if fn is not f or node.kind != 'stmt' or node.ast is None:
+            return
+        for c in calls_in(node.ast):
+            if call_name(c) not in SUBMITS or not c.args:
+                continue
+            v = ip.ev(fn, c.args[0], env)
+            if not isinstance(v, list) or any(
+                    not isinstance(x, dict) or x.get('uid') is UNK
+                    for x in v) or \
+                    not any(x.get('uid') == TUID for x in v):
+                res.append(None)
+                continue
+            # the request as the submitted list has it, and as every local
+            # name bound to it has it (the loop variable that was marked)
+            copies = [x for x in v if x.get('uid') == TUID] + \
+                     [x for x in env.values() if isinstance(x, dict) and
+                      x.get('uid') == TUID]
+            marks = [truth(x.get('raptor_seen')) for x in copies]
+            res.append(True if True in marks else
+                       None if None in marks else False)
+
+    ip = _interp(prog, cls, observe, schema)
+    ip.run(f, {param: [{'uid': TUID, 'description': descr}]})
+    if not res or None in res:
+        return 'unknown', 'the list of requests submitted by %s cannot be ' \
+            'evaluated' % f.qual, ip.states
+    if all(res):
+        return 'ok', 'marked', ip.states
+    if not any(res):
+        return 'wrong', 'not marked', ip.states
+    return 'mixed', 'marked on some paths only', ip.states
+
+
+def _subsets(keys, cap=4):
+    keys = sorted(keys)
+    if len(keys) <= cap:
+        out = [()]
+        for k in keys:
+            out += [s + (k,) for s in out]
+        return sorted(out, key=lambda s: (len(s), s))
+    out = [()] + [(k,) for k in keys] + [tuple(keys)]
+    out += [tuple(x for x in keys if x != k) for k in keys]
+    return out
+
+
+def _concrete(mode, req, S, schema):
+    d = {'mode': mode}
+    d.update({k: schema.get(k, SET) for k in req})
+    d.update({k: schema.get(k, SET) for k in S})
+    return d
+
+
+def _attrs_text(mode, req, S):
+    return ', '.join(['mode=%r' % mode] +
+                     ['%s=<set> (required by _verify)' % k
+                      for k in sorted(req)] +
+                     ['%s=<set>' % k for k in S])
+
+
+def _three_valued(rep, run, mode, req, forb, named, schema):
+    """run(descr) -> (verdict, text, states).  None if the outcome is right
+    for the description of this mode in which every attribute _verify leaves
+    open is unknown; else (S, text) of a concrete admissible description
+    (required attributes and those in S set, nothing else) on which every
+    path has the wrong outcome.  AnalysisError if there is none: the outcome
+    then depends on something that cannot be evaluated."""
+    # (attributes the code cannot name are represented by one unknown entry:
+    # whatever looks at the description as a whole evaluates to unknown)
+    descr = {k: UNK for k in named}
+    descr['<any other attribute>'] = UNK
+    descr.update({k: schema.get(k, SET) for k in req})
+    descr.update({k: None for k in forb})
+    descr['mode'] = mode
+    verdict, txt, n = run(descr)
+    rep.stat('interp_states', n)
+    if verdict == 'ok':
+        return None
+    for S in _subsets(set(named) - set(req) - set(forb)):
+        v2, t2, n = run(_concrete(mode, req, S, schema))
+        rep.stat('interp_states', n)
+        if v2 == 'wrong':
+            return S, t2
+    raise AnalysisError('UNRECOGNISED-IDIOM: the outcome for a request of '
+                        'mode %r cannot be evaluated (%s)' % (mode, txt))
+
+
+SUBMITS = ('self.submit_tasks', 'self._submit_tasks')
+
+
+def r20_7(prog, rep, rid='R20.7'):
+    rep.rule(rid, 'routing table of Master._submit_tasks over all request '
+             'modes: TASK_EXECUTABLE -> agent executor path, every mode the '
+             'workers dispatch (Worker.register_mode) -> the workers, for '
+             'every description TaskDescription._verify admits for the mode '
+             '(required attributes set, all others arbitrary); _request_cb '
+             'marks every such TASK_EXECUTABLE request raptor_seen',
+             minimum=8)
+    f = prog.method(MA[0], MA[1], '_submit_tasks')
+    rq = prog.method(MA[0], MA[1], '_request_cb')
+    M = prog.cls(*MA)
+    rep.saw(f)
+    rep.saw(rq)
+    rep.saw(prog.method(TD[0], TD[1], '_verify'))
+    exe = prog.const(TD[0], 'TASK_EXECUTABLE')
+    schema = _schema_keys(prog)
+    wmodes = _worker_modes(prog)
+    if exe in wmodes:
+        raise AnalysisError('UNRECOGNISED-IDIOM: the workers register a '
+                            'dispatcher for %r' % exe)
+    param = [p for p in f.params if p != 'self'][0]
+    qparam = [p for p in rq.params if p != 'self'][0]
+    named = _named_keys(prog, f, M, schema, skip=set(ROUTES)) - {'mode'}
+    qnamed = _named_keys(prog, rq, M, schema, skip=set(SUBMITS)) - {'mode'}
+    table = [(exe, R_EXE)] + [(m, R_WRK) for m in sorted(wmodes)]
+    for mode, want in table:
+        req, forb, n = _verify_facts(prog, mode, named, schema)
+        rep.stat('paths_enumerated', n)
+        what = 'mode %s -> %s for every admissible description' \
+               % (mode, ROUTES[want])
+        witness = _three_valued(
+            rep, lambda d: _route_of(prog, f, M, param, d, want, schema),
+            mode, req, forb, named, schema)
+        if witness is None:
+            rep.ok(rid, f, what, f.loc())
+            continue
+        S, went = witness
+        attrs = _attrs_text(mode, req, S)
+        if want == R_WRK:
+            cons = 'no worker ever sees it (%s never runs it)' \
+                   % wmodes.get(mode, 'its dispatcher')
+            if _seen_of(prog, rq, M, qparam,
+                        _concrete(mode, req, S, schema),
+                        schema)[0] == 'wrong':
+                cons += '; %s does not mark it raptor_seen, so the agent ' \
+                        'scheduler forwards it to the master again and it ' \
+                        'circulates without reaching a final state' % rq.qual
+        else:
+            cons = 'the workers have no dispatcher for this mode: the ' \
+                   'request never runs on the pilot\'s execution path'
+        rep.bad(rid, f, 'table:%s' % mode,
+                '%s: a request with description {%s} is handed to %s; the '
+                'route must be a function of the mode alone and mode %r '
+                'belongs to %s: %s'
+                % (f.qual, attrs, went, mode, ROUTES[want], cons),
+                f.loc(),
+                history='master.submit_tasks of a bulk with one %s request '
+                '(%s) next to one task.executable and one task.function '
+                'request' % (mode, attrs))
+    # the cooperating site: what goes to the executor path comes back to the
+    # agent scheduler, which forwards it to the master again unless it is
+    # marked
+    req, forb, n = _verify_facts(prog, exe, qnamed, schema)
+    rep.stat('paths_enumerated', n)
+    witness = _three_valued(
+        rep, lambda d: _seen_of(prog, rq, M, qparam, d, schema),
+        exe, req, forb, qnamed, schema)
+    if witness is None:
+        rep.ok(rid, rq, 'every admissible %s request is marked raptor_seen '
+               'before it is submitted' % exe, rq.loc())
+    else:
+        S, txt = witness
+        attrs = _attrs_text(exe, req, S)
+        rep.bad(rid, rq, 'seen:%s' % exe,
+                '%s: a request with description {%s} is %s raptor_seen when '
+                'it is submitted; %s pushes it to the agent executor path, '
+                'the agent scheduler sees a raptor_id without raptor_seen '
+                'and forwards it to the master again: the request circulates '
+                'and never runs' % (rq.qual, attrs, txt, f.qual), rq.loc(),
+                history='the agent scheduler forwards one %s request (%s) '
+                'to the master' % (exe, attrs))
+
+
+# ------------------------------------------------------------------------------
 #
 def run(prog, rep, tier):
     rep.decided = ('DefaultWorker touches its occupancy lists only under '
@@ -1361,7 +1936,10 @@ def run(prog, rep, tier):
         '_result_cb, which frees, copies the result fields and reports; a '
         'request that fails to start is freed and reported; Master._result_cb '
         'maps exit code 0 to DONE and everything else to FAILED and hands '
-        'the tasks on exactly once; _submit_tasks routes by mode; the agent '
+        'the tasks on exactly once; _submit_tasks routes by mode, for every '
+        'mode the workers dispatch and every description _verify admits '
+        '(three-valued over the attributes it leaves open), and _request_cb '
+        'marks the executable requests raptor_seen; the agent '
         'scheduler forwards to raptor iff raptor_id and not worker and not '
         'raptor_seen and relays backlogs once; the in-process dispatchers '
         'save/restore stdio and environment around the call and return '
@@ -1378,6 +1956,9 @@ def run(prog, rep, tier):
         'os.environ / sys.stdout / sys.stderr of the dispatching process',
         'values are followed through constants, simple assignments and '
         'int()/str(); anything else is unknown and never reported',
+        'a request description reaching the master satisfies '
+        'TaskDescription._verify for its mode; its other attributes are '
+        'arbitrary',
     ]
     r20_1(prog, rep, tier=tier)
     r20_2(prog, rep)
@@ -1385,6 +1966,7 @@ def run(prog, rep, tier):
     r20_4(prog, rep)
     r20_5(prog, rep)
     r20_6(prog, rep)
+    rep.attempt(r20_7, prog, rep)
 
 
 # ------------------------------------------------------------------------------
@@ -1395,6 +1977,13 @@ _W = 'raptor/worker.py'
 _M = 'raptor/master.py'
 _B = 'agent/scheduler/base.py'
 
+_ROUTE_OLD = ("            mode = task['description'].get('mode', TASK_EXECUTABLE)\n"
+              "            if mode == TASK_EXECUTABLE:\n")
+_HELPER_AT = "    def _submit_raptor_tasks(self, tasks) -> None:\n"
+
+_ALIVE_OLD = "                if worker_proc.is_alive():\n"
+_ALIVE_NEW = ("                hung = worker_proc.is_alive()\n"
+              "                if hung:\n")
 MUTATIONS = [
     dict(name='R20.1 _dealloc without the lock', rules=('R20.1',), edits=[
         (_D, "        self._prof.prof('unschedule_start', uid=task['uid'])\n\n        with self._rlock:\n",
@@ -1528,6 +2117,41 @@ MUTATIONS = [
              "            err = 'shell failed: %s' % e\n            exc = (repr(e), '\\n'.join(ru.get_exception_trace()))\n            ret = 0\n")]),
     dict(name='R20.6 func: deserialization failure returns code 0', rules=('R20.6',), edits=[
         (_W, "                err = f'call failed: {e}'\n                ret = 1\n", "                err = f'call failed: {e}'\n                ret = 0\n")]),
+    dict(name='R20.7 seed C20-d: requests that name an executable are routed to the executor path', rules=('R20.7',), edits=[
+        (_M, _ROUTE_OLD,
+             "            td   = task['description']\n            mode = td.get('mode', TASK_EXECUTABLE)\n            if mode == TASK_EXECUTABLE or td.get('executable'):\n")],
+         note='TASK_PROC descriptions must carry an executable: they never reach a worker'),
+    dict(name='R20.7 seed C20-d spelled through a helper predicate', rules=('R20.7',), edits=[
+        (_M, _ROUTE_OLD,
+             "            mode = task['description'].get('mode', TASK_EXECUTABLE)\n            if self._runs_executable(task['description']):\n"),
+        (_M, _HELPER_AT,
+             "    def _runs_executable(self, td):\n\n        if td.get('mode', TASK_EXECUTABLE) == TASK_EXECUTABLE:\n            return True\n        return bool(td.get('executable'))\n\n\n" + _HELPER_AT)]),
+    dict(name='R20.7 process requests listed with the executables', rules=('R20.7',), edits=[
+        (_M, "from .. import Session, Task, TaskDescription, TASK_EXECUTABLE\n",
+             "from .. import Session, Task, TaskDescription, TASK_EXECUTABLE\nfrom ..task_description import TASK_PROC\n"),
+        (_M, _ROUTE_OLD,
+             "            mode = task['description'].get('mode', TASK_EXECUTABLE)\n            if mode in [TASK_EXECUTABLE, TASK_PROC]:\n")]),
+    dict(name='R20.7 worker route chosen by the payload attributes instead of the mode', rules=('R20.7',), edits=[
+        (_M, _ROUTE_OLD,
+             "            td   = task['description']\n            mode = td.get('mode', TASK_EXECUTABLE)\n            if not (td.get('function') or td.get('code') or td.get('command')):\n")],
+         note='a process request has none of the three: it goes to the executor path'),
+    dict(name='R20.7 eval/exec requests with a named environment sent to the executor path', rules=('R20.7',), edits=[
+        (_M, _ROUTE_OLD,
+             "            td   = task['description']\n            mode = td.get('mode', TASK_EXECUTABLE)\n            if mode == TASK_EXECUTABLE or td.get('named_env'):\n")],
+         note='_verify forbids named_env for function / method requests only'),
+    dict(name='R20.7 executable mode recognised by a prefix that task.exec shares', rules=('R20.7',), edits=[
+        (_M, _ROUTE_OLD,
+             "            mode = task['description'].get('mode', TASK_EXECUTABLE)\n            if mode.startswith('task.exe'):\n")],
+         note='right for executable and function requests, wrong for exec requests'),
+    dict(name='R20.7 multi-rank requests sent to the executor path whatever their mode', rules=('R20.7',), edits=[
+        (_M, _ROUTE_OLD,
+             "            td   = task['description']\n            mode = td.get('mode', TASK_EXECUTABLE)\n            if mode == TASK_EXECUTABLE or td.get('ranks', 1) > 1:\n")]),
+    dict(name='R20.7 raptor_seen marking inverted in _request_cb', rules=('R20.7',), edits=[
+        (_M, "            if task['description']['mode'] == TASK_EXECUTABLE:\n                task['raptor_seen'] = True\n",
+             "            if task['description']['mode'] != TASK_EXECUTABLE:\n                task['raptor_seen'] = True\n")]),
+    dict(name='R20.7 only executable requests with arguments are marked raptor_seen', rules=('R20.7',), edits=[
+        (_M, "            if task['description']['mode'] == TASK_EXECUTABLE:\n                task['raptor_seen'] = True\n",
+             "            if task['description']['mode'] == TASK_EXECUTABLE and \\\n               task['description'].get('arguments'):\n                task['raptor_seen'] = True\n")]),
 ]
 
 SILENT = [
@@ -1544,6 +2168,8 @@ SILENT = [
              "            task['slots'] = [{'gpus' : alloc_gpus,\n                              'cores': alloc_cores}]")]),
     dict(name='_dealloc reads the slot without a local', edits=[
         (_D, "            resources = task['slots'][0]\n\n            for n in resources['cores']:", "            resources = task['slots'][0]\n\n            for n in task['slots'][0]['cores']:")]),
+    dict(name='is_alive() result held in a local before the timeout test', edits=[
+        (_D, _ALIVE_OLD, _ALIVE_NEW)]),
     dict(name='result fields copied in another order', edits=[
         (_D, "        task['stdout']           = out\n        task['stderr']           = err\n        task['exit_code']        = ret\n",
              "        task['exit_code']        = ret\n        task['stderr']           = err\n        task['stdout']           = out\n")]),
@@ -1576,6 +2202,35 @@ SILENT = [
     dict(name='eval: success values assigned as one tuple', edits=[
         (_W, "            val = eval(code)\n            self._prof.prof('rank_stop', uid=uid)\n            out = strout.getvalue()\n            err = strerr.getvalue()\n            exc = (None, None)\n            ret = 0\n",
              "            val = eval(code)\n            self._prof.prof('rank_stop', uid=uid)\n            out = strout.getvalue()\n            err = strerr.getvalue()\n            ret, exc = 0, (None, None)\n")]),
+    dict(name='routing test hoisted into renamed locals', edits=[
+        (_M, _ROUTE_OLD,
+             "            td     = task['description']\n            kind   = td.get('mode', TASK_EXECUTABLE)\n            to_exe = kind == TASK_EXECUTABLE\n            if to_exe:\n")]),
+    dict(name='routing in early-continue form after the sandbox completion', edits=[
+        (_M, _ROUTE_OLD + "                executable_tasks.append(task)\n            else:\n                raptor_tasks.append(task)\n\n            # tasks submitted in raptor will miss sandbox completion as\n            # performed by the tmgr.scheduler, so we add it here\n            dummy = {'pilot_sandbox': self._psbox}\n            sbox  = self._session._get_task_sandbox(task, dummy)\n            task['task_sandbox']      = str(sbox)\n            task['task_sandbox_path'] = ru.Url(sbox).path\n",
+             "            dummy = {'pilot_sandbox': self._psbox}\n            sbox  = self._session._get_task_sandbox(task, dummy)\n            task['task_sandbox']      = str(sbox)\n            task['task_sandbox_path'] = ru.Url(sbox).path\n\n            mode = task['description'].get('mode', TASK_EXECUTABLE)\n            if mode != TASK_EXECUTABLE:\n                raptor_tasks.append(task)\n                continue\n\n            executable_tasks.append(task)\n")]),
+    dict(name='routing predicate extracted into a helper method', edits=[
+        (_M, _ROUTE_OLD,
+             "            if self._is_executable(task):\n"),
+        (_M, _HELPER_AT,
+             "    def _is_executable(self, task):\n\n        mode = task['description'].get('mode', TASK_EXECUTABLE)\n        return mode == TASK_EXECUTABLE\n\n\n" + _HELPER_AT)]),
+    dict(name='route lists built by two comprehensions', edits=[
+        (_M, "        raptor_tasks     = list()\n        executable_tasks = list()\n",
+             "        tasks            = ru.as_list(tasks)\n        executable_tasks = [t for t in tasks if t['description'].get('mode', TASK_EXECUTABLE) == TASK_EXECUTABLE]\n        raptor_tasks     = [t for t in tasks if t['description'].get('mode', TASK_EXECUTABLE) != TASK_EXECUTABLE]\n"),
+        (_M, _ROUTE_OLD + "                executable_tasks.append(task)\n            else:\n                raptor_tasks.append(task)\n", "")]),
+    dict(name='routing test spelled as membership', edits=[
+        (_M, _ROUTE_OLD,
+             "            mode = task['description'].get('mode', TASK_EXECUTABLE)\n            if mode in (TASK_EXECUTABLE, ):\n")]),
+    dict(name='an attribute of the description is read next to the routing without deciding it', edits=[
+        (_M, _ROUTE_OLD,
+             "            if task['description'].get('named_env'):\n                self._log.debug('named env: %s', task['uid'])\n\n" + _ROUTE_OLD)]),
+    dict(name='raptor_seen marking with the description hoisted', edits=[
+        (_M, "            if task['description']['mode'] == TASK_EXECUTABLE:\n                task['raptor_seen'] = True\n",
+             "            td = task['description']\n            if TASK_EXECUTABLE == td['mode']:\n                task['raptor_seen'] = True\n")]),
+    dict(name='raptor_seen marking extracted into a helper method', edits=[
+        (_M, "            if task['description']['mode'] == TASK_EXECUTABLE:\n                task['raptor_seen'] = True\n",
+             "            self._mark_seen(task)\n"),
+        (_M, _HELPER_AT,
+             "    def _mark_seen(self, task):\n\n        if task['description']['mode'] != TASK_EXECUTABLE:\n            return\n        task['raptor_seen'] = True\n\n\n" + _HELPER_AT)]),
 ]
 
 from .c14 import corpus_variants          # noqa: E402
